@@ -70,7 +70,7 @@ def string_cmd(rng, keys):
         a = [k, k2]
     elif c == "keys":
         ks = []
-        a = [rng.choice([b"*", b"k*", b"?1", b"[kK]1", b"foo", b"*o", b"\\*", b"k[1-2]", b"[^k]*", b"*x"])]
+        a = [rng.choice([b"*", b"k*", b"?1", b"[kK]1", b"foo", b"*o", b"\\*", b"k[1-2]", b"[^k]*", b"*x", b"k\\1", b"fo\\o", b"\\k1", b"k1\\", b"a\\ b", b"\\\\"])]
     elif c == "ping":
         ks = []
         a = [] if rng.random() < 0.5 else [v]
